@@ -34,7 +34,7 @@ def run(ctx):
         "which session a datagram is fed to, per-session FEC feed log, filter verdicts)")
     V.merge_report(ctx, rep, summ)
     U.io_part(ctx)
-    U.run_parts(ctx, ["listener", "client"])
+    U.run_parts(ctx, ["listener", "client", "neighbour"])
     if ctx.broken and not ctx.violations and ctx.quick():
         # search: the monitors over the thorough generators (deeper exhaustive orders, more interleavings)
         rep2, _ = V.harness_report(ctx, "^TestVerifC11$", "C11.report.json", env={"VERIF_TIER": "thorough"},
